@@ -118,7 +118,10 @@ impl Connection {
 
             match self.socket.as_mut() {
                 Some(socket) => {
-                    let n = match socket.read_buf(&mut self.buffer).await {
+                    // Never hold more than one maximal frame, however large the buffer's
+                    // allocation has grown
+                    let room = (MAX_FRAME_SIZE + 4).saturating_sub(self.buffer.len());
+                    let n = match socket.take(room as u64).read_buf(&mut self.buffer).await {
                         Err(_) => return Err(Error::CantReadFromSocket),
                         Ok(n) => n,
                     };
